@@ -361,90 +361,30 @@ theorem tie_constants :
         = ["size", "swaplen", "num_item_types", "num_items", "num_data", "size_items", "size_data"] := by
   decide
 
-/-- Tie: every comparison (`if` condition, match guard, `assert!`) of the datafile reader's
-validation and accessor code, in source order, is the one the model was written against.  An
-edit of an operator (`<` ↔ `<=`, a dropped `!`, another limit) breaks this theorem even when no
-generated input distinguishes the two versions; `./check` then searches for a failing input. -/
-theorem tie_datafile_conditions :
-    Tw.Gen.Datafile.conds_raw_check
-      = ["!(0 <= t.type_id && t.type_id < format::ITEMTYPE_ID_RANGE)",
-        "!(t.type_id > previous_type_id)",
-        "t.start != expected_start",
-        "!(0 <= t.num && t.num <= self.header.hr.num_items - t.start)",
-        "t.type_id == t2.type_id",
-        "expected_start != self.header.hr.num_items",
-        "self.item_offsets[i] < 0",
-        "offset != self.item_offsets[i] as usize",
-        "offset > self.header.hr.size_items as usize",
-        "item_header.size < 0",
-        "item_header.size as usize % mem::size_of::<i32>() != 0",
-        "offset > self.header.hr.size_items as usize",
-        "offset != self.header.hr.size_items as usize",
-        "uds[i] < 0",
-        "offset < 0 || offset > self.header.hr.size_data",
-        "previous > offset",
-        "item_header.type_id() != t.type_id as u16"]
-    ∧ Tw.Gen.Datafile.conds_raw_data_size_file
-      = ["index < self.data_offsets.len() - 1"]
-    ∧ Tw.Gen.Datafile.conds_raw_item_type_indices
-      = ["t.type_id as u16 == type_id"]
-    ∧ Tw.Gen.Datafile.conds_raw_read_data
-      = ["len == data_len"]
-    ∧ Tw.Gen.Datafile.conds_HeaderVersion_check
-      = ["self.magic != MAGIC && self.magic != MAGIC_BIGENDIAN",
-        "self.version != VERSION3 && self.version != VERSION4"]
-    ∧ Tw.Gen.Datafile.conds_HeaderRest_check
-      = ["self.size < 0",
-        "self.swaplen < 0",
-        "self.num_item_types < 0",
-        "self.num_items < 0",
-        "self.num_data < 0",
-        "self.size_items < 0",
-        "self.size_data < 0",
-        "self.size_items as u32 % mem::size_of::<i32>() as u32 != 0"]
-    ∧ Tw.Gen.Datafile.conds_Header_read
-      = ["read < mem::size_of_val(&result.hv)",
-        "read < mem::size_of_val(&result)"]
-    ∧ Tw.Gen.Datafile.conds_Header_check_size_and_swaplen
-      = ["self.hr.size != expected_size0 && self.hr.size != expected_size1",
-        "self.hr.swaplen != expected_swaplen0 && self.hr.swaplen != expected_swaplen1"]
-    ∧ Tw.Gen.Datafile.conds_Header_calculate_size_field
-      = ["crude_version"]
-    ∧ Tw.Gen.Datafile.conds_Header_calculate_total_size
-      = ["self.hv.version >= 4"]
-    ∧ Tw.Gen.Datafile.conds_file_ensure_filesize
-      = ["actual.checked_sub(self_.datafile_start).unwrap() >= filesize.u64()"]
-    ∧ Tw.Gen.Datafile.file_seek_base_expr
-      = "so(datafile_start.checked_add(callback_data_new.seek_base.unwrap()))?" := by
+/-- Tie: the comparisons of the datafile reader's validation code (`Reader::check` and whatever
+helper it may be split into, the header checks of `format.rs`, `ensure_filesize` of `file.rs`) as a
+sorted multiset of *shapes* `[!]<left><op><right>` — an operand is kept only if it is an integer
+literal or an ALL_CAPS constant, `!` marks a comparison inside a negated group — and the fact that
+the seek base of `file.rs` includes `datafile_start`.  An operator flip (`<` ↔ `<=`), a dropped
+negation or another limit constant breaks this theorem even when no generated input separates
+the versions; renaming, local `let`s, closures (`find`/`position`) and private helper functions
+do not. -/
+theorem tie_datafile_comparisons :
+    Tw.Gen.Datafile.cmp_raw_validation
+      = ["!0<=_", "!0<=_", "!_<=_", "!_<ITEMTYPE_ID_RANGE", "!_>_", "_!=0", "_!=_", "_!=_", "_!=_", "_!=_", "_!=_", "_<0", "_<0", "_<0", "_<0", "_==_", "_>_", "_>_", "_>_", "_>_"]
+    ∧ Tw.Gen.Datafile.cmp_format_header
+      = ["_!=0", "_!=MAGIC", "_!=MAGIC_BIGENDIAN", "_!=VERSION3", "_!=VERSION4", "_!=_", "_!=_", "_!=_", "_!=_", "_!=_", "_<0", "_<0", "_<0", "_<0", "_<0", "_<0", "_<0", "_<_", "_<_", "_>=4"]
+    ∧ Tw.Gen.Datafile.cmp_file_ensure_filesize = ["_>=_"]
+    ∧ Tw.Gen.Datafile.file_seek_base_uses_start = true := by
   decide
 
-/-- Tie: the comparisons of the map layer (`from_slice_rest`, the extra race index, `get_index`,
-the `from_raw` range tests). -/
-theorem tie_map_conditions :
-    Tw.Gen.MapItems.conds_from_slice_rest
-      = ["!Self::ignore_version()",
-        "slice.len() == 0",
-        "slice[0] < Self::version()",
-        "slice.len() < Self::sum_len()"]
-    ∧ Tw.Gen.MapItems.conds_extra_from_slice
-      = ["slice.len() <= offset"]
-    ∧ Tw.Gen.MapItems.conds_get_index_impl
-      = ["!(index < indices.end)"]
-    ∧ Tw.Gen.MapItems.conds_get_index_opt
-      = ["index == -1"]
-    ∧ Tw.Gen.MapItems.conds_Group_from_raw
-      = ["layers_start > layer_indices.end",
-        "layers_end > layer_indices.end",
-        "v2.use_clipping != 0"]
-    ∧ Tw.Gen.MapItems.conds_LayerTilemap_from_raw
-      = ["v2.color_env == -1",
-        "!normal",
-        "width == 0",
-        "height == 0"]
-    ∧ Tw.Gen.MapItems.conds_Layer_from_raw
-      = ["flags & !format::LAYERFLAGS_ALL != 0"]
-    ∧ Tw.Gen.MapItems.conds_Image_from_raw
-      = ["v1.external != 0"] := by
+/-- Tie: comparison shapes of the map layer's validation code (`from_slice_rest`, the extra-race
+`from_slice`/`offset`, `get_index_impl`, `get_index_opt`, every `from_raw`). -/
+theorem tie_map_comparisons :
+    Tw.Gen.MapItems.cmp_map_format
+      = ["!_<=_", "!_<_", "_!=0", "_<=_", "_<_", "_<_", "_==0", "_==_"]
+    ∧ Tw.Gen.MapItems.cmp_map_reader
+      = ["!_<_", "_!=0", "_!=0", "_!=0", "_!=0", "_!=MAP_ITEMTYPE_LAYER_V1_DDRACE_SOUNDS", "_==-1", "_==-1", "_==0", "_==0", "_>_", "_>_"] := by
   decide
 
 /-- **`MapItemExt::from_slice_rest` is total** for every layout and every slice (the two slice
